@@ -37,7 +37,7 @@ REQUIRED = ["KV.C08.constants_ok", "KV.C08.hyp_of_build", "KV.C08.extendLeft_eq"
             "KV.C08.beginNonTerminal_rule", "KV.C08.any_derivation_leftToRight", "KV.C08.no_rest_fragment_table",
             "KV.C08.no_rest_fragment", "KV.C08.subsume_frag", "KV.C08.derivation_score_unique",
             "KV.C08.subsume_whole_minus_parts", "KV.C08.reveal_after", "KV.C08.reveal_after_whole_minus_parts", "KV.C08.reveal_before", "KV.C08.reveal_before_whole_minus_parts", "KV.C08.reveal_both", "KV.C08.reveal_both_whole_minus_parts",
-            "KV.C08.any_derivation_fails_with_dropped_marks"]
+            "KV.C08.any_derivation_fails_with_dropped_marks", "KV.C08.open_states_square", "KV.C08.nonterminal_dead_branches"]
 
 KEY_G = "trie-drops-extension-marks-of-trailing-blanks"
 
@@ -94,28 +94,29 @@ def enforce_premise(arpa_bytes):
     return b"\n".join(lines), changed
 
 
-def lower_files(case_arpa, workdir, name, rng):
+def lower_files(case_arpa, workdir, name, rng, drop_unk=False):
     """Lower-order ARPA files of 'the same corpus': order k keeps the n-grams of orders <= k (same unigram order, so
     that word ids agree — LowerRestBuild passes the main model's ids), probabilities shifted so that rest != prob.
     Returns list of paths (order 1 … N-1) or None when <unk> is absent (LowerRestBuild sizes its unigram table by the
     file's count and would write out of bounds for a hallucinated <unk>)."""
     lines, secs = sections(case_arpa)
     N = max(secs)
-    uni_words = [t[1] for _, t in secs[1]]
-    if b"<unk>" not in uni_words and b"<UNK>" not in uni_words:
-        return None
-    if uni_words[0] not in (b"<unk>", b"<UNK>") and False:
-        return None
+    # drop_unk: the lower-order files do not list <unk> (LowerRestBuild then has to size its unigram table by the main
+    # vocabulary, not by the file's count: heap overflow on trees without repo_patches/63-fix-lower-rest-unk)
     paths = []
     for k in range(1, N):
         shift = Fraction(rng.randrange(0, 9), 8)
         out = [b"\\data\\"]
+        def keep(n, t):
+            return not (drop_unk and n == 1 and t[1] in (b"<unk>", b"<UNK>"))
         for n in range(1, k + 1):
-            out.append(b"ngram %d=%d" % (n, len(secs[n])))
+            out.append(b"ngram %d=%d" % (n, sum(1 for _, t in secs[n] if keep(n, t))))
         out.append(b"")
         for n in range(1, k + 1):
             out.append(b"\\%d-grams:" % n)
             for _, t in secs[n]:
+                if not keep(n, t):
+                    continue
                 try:
                     p = float(t[0])
                 except ValueError:
@@ -357,6 +358,9 @@ def tolerance(k, a, rest=False):
 
 
 # ------------------------------------------------------------------ comparison of one op
+SHAPES = []
+
+
 def compare_op(op, il, ml, loaded, info, qfit, subnormal):
     """-> list of problems {kind, cls, detail}"""
     probs = []
@@ -394,7 +398,12 @@ def compare_op(op, il, ml, loaded, info, qfit, subnormal):
                 if rest:      # rest costs are not among the oracle's terms: add the magnitude of the fragment scores
                     tl = tl + tolerance(k, sum(abs(frac(y[0])) for y in rm), rest)
                 for j, (x, y) in enumerate(zip(ri, rm)):
-                    d = chart_diff(chart(x[1:7]), chart(y[1:7]), pi, pm, numeric)
+                    cx = chart(x[1:7])
+                    if not cx["full"]:
+                        # evidence only: open states made by RuleScore are "square"; this is what makes
+                        # lm/left.hh:106 and :136 (in.right.length < in.left.length) unreachable through the API
+                        SHAPES.append("square" if cx["rlen"] == cx["llen"] else "right%+d" % (cx["rlen"] - cx["llen"]))
+                    d = chart_diff(cx, chart(y[1:7]), pi, pm, numeric)
                     if d:
                         probs.append({"kind": "chart-state", "cls": c, "node": j, "detail": d, "impl": " ".join(x), "model": " ".join(y)})
                         break
@@ -565,7 +574,11 @@ def left_stream(ctx, hexe, dexe, n_cases, quick):
         path = os.path.join(work, "c%d.arpa" % ci)
         with open(path, "wb") as f:
             f.write(arpa)
-        lower = lower_files(arpa, work, "c%d" % ci, ctx.rng) if ctx.rng.random() < 0.6 else None
+        has_unk = bool(re.search(rb"\t<(unk|UNK)>", arpa))
+        drop_unk = (not has_unk) or ctx.rng.random() < 0.3
+        lower = lower_files(arpa, work, "c%d" % ci, ctx.rng, drop_unk) if ctx.rng.random() < 0.6 else None
+        if lower:
+            ctx.hist("left.lower_files_list_unk", int(not drop_unk))
         classes = "PRLTAQB" if lower else "PRTAQB"
         ops = gen_ops(case, ctx.rng, quick)
         if not os.path.exists(hexe):
@@ -580,7 +593,11 @@ def left_stream(ctx, hexe, dexe, n_cases, quick):
                 "replay": "write arpa (and lower files) to disk; feed `arpa <file> mult=.. abits=.. classes=.. [lower=f1,f2,..]` "
                           "followed by the op line to the harness (harness/c08_left.cc) and to drv_C08"}
         if rc1 != 0 or rc2 != 0 or len(o1) != len(ops) + 1 or len(o2) != len(ops) + 1:
-            ctx.violation("left: harness or driver died (harness rc=%s, driver rc=%s)" % (rc1, rc2),
+            san = re.search(r"ERROR: (AddressSanitizer|UndefinedBehaviorSanitizer|LeakSanitizer)[^\n]*(?:\n[^\n]*){0,3}", e1 or "")
+            what = "left: harness or driver died (harness rc=%s, driver rc=%s)" % (rc1, rc2)
+            if san:
+                what = "left: sanitizer report while loading/scoring (%s)" % " / ".join(x.strip()[:160] for x in san.group(0).splitlines()[:3])
+            ctx.violation(what,
                           dict(base, ops=ops[:50], harness_stderr=e1[-3000:], driver_stderr=e2[-1500:]))
             found = True
             continue
@@ -616,6 +633,9 @@ def left_stream(ctx, hexe, dexe, n_cases, quick):
             probs = compare_op(op, o1[1 + oi], o2[1 + oi], loaded, info, qfit, subnormal)
             k = op.split()[0]
             ctx.hist("left.op", k)
+            for sh in set(SHAPES):
+                ctx.hist("left.open_state_shape", sh)
+            del SHAPES[:]
             nontriv = True
             if k in "dD":
                 nontriv = "(" in op
@@ -687,6 +707,6 @@ def run(ctx):
     ctx.assumptions += ["64-bit hash injectivity on the n-grams of each generated model",
                         "float32 sums within 8(k+1)*2^-23*sum|terms| of the exact rational value (16x for rest-cost models)",
                         "quantised classes compared in value only when every order's value count fits the bins",
-                        "REST_LOWER only with lower-order files listing the same unigrams in the same order and containing <unk>",
+                        "REST_LOWER only with lower-order files listing the same unigrams in the same order (with or without <unk>)",
                         "Subsume only with between_length = 0"]
     flow.report_obligation_failures(ctx, problems, found)
